@@ -3,6 +3,7 @@ package c02
 import (
 	"fmt"
 	"math/rand"
+	"os"
 	"time"
 
 	cstypes "github.com/kardiachain/go-kardia/consensus/types"
@@ -324,7 +325,7 @@ func hvsCase(c *core.Case) {
 			for _, typ := range []int32{tPrevote, tPrecommit} {
 				real := get(rr, typ)
 				if (real != nil) != m.rounds[rr] {
-					fail("round-tracking-differs", fmt.Sprintf("vote set for round %d exists=%v, expected %v", rr, real != nil, m.rounds[rr]))
+					fail("bookkeeping:round-tracking-differs", fmt.Sprintf("vote set for round %d exists=%v, expected %v", rr, real != nil, m.rounds[rr]))
 					stop = true
 					return
 				}
@@ -333,7 +334,7 @@ func hvsCase(c *core.Case) {
 						s.real = real
 					}
 					if s.real != real {
-						fail("vote-set-replaced", fmt.Sprintf("round %d type %d: the vote set object changed", rr, typ))
+						fail("bookkeeping:vote-set-replaced", fmt.Sprintf("round %d type %d: the vote set object changed", rr, typ))
 						stop = true
 						return
 					}
@@ -365,7 +366,7 @@ func hvsCase(c *core.Case) {
 			}
 		}
 		if !degraded && (gotR != wantR || gotID != wantID) {
-			fail("pol-info-differs", fmt.Sprintf("POLInfo=(%d,%s), tally (%d,%s)", gotR, idName(gotID), wantR, idName(wantID)))
+			fail("bookkeeping:pol-info-differs", fmt.Sprintf("POLInfo=(%d,%s), tally (%d,%s)", gotR, idName(gotID), wantR, idName(wantID)))
 			stop = true
 		}
 		if wantR != 0 {
@@ -410,7 +411,7 @@ func hvsCase(c *core.Case) {
 				}
 				wantErr := typ != tPrevote && typ != tPrecommit
 				if (err != nil) != wantErr {
-					fail("peermaj23-answer", fmt.Sprintf("SetPeerMaj23 for round %d type %d: err=%v", round, typ, err))
+					fail("bookkeeping:peermaj23-answer", fmt.Sprintf("SetPeerMaj23 for round %d type %d: err=%v", round, typ, err))
 					return
 				}
 			}
@@ -508,7 +509,8 @@ var exVectors = map[int][][]int64{
 var exCands = []types.BlockID{idA, idAt, idNil}
 
 // exList enumerates the specs. level 0 (quick): n<=3, and for n=3 no combination of equivocation and claim.
-// level 1 (thorough): n<=4; for n=4 equivocation and claim are combined only when the claim is for the equivocator's second block.
+// level 1 (thorough): n<=4; for n=4 equivocation and claim are combined only for the power vector {2,2,1,1}
+// (total 6, two validators at exactly 2/3) and only when the claim is for the equivocator's second block.
 func exList(level int) []exSpec {
 	var out []exSpec
 	maxN := 3
@@ -516,7 +518,7 @@ func exList(level int) []exSpec {
 		maxN = 4
 	}
 	for n := 1; n <= maxN; n++ {
-		for _, vec := range exVectors[n] {
+		for vi, vec := range exVectors[n] {
 			na := 1
 			for i := 0; i < n; i++ {
 				na *= 3
@@ -539,7 +541,7 @@ func exList(level int) []exSpec {
 								if level == 0 && n >= 3 {
 									continue
 								}
-								if n >= 4 && cl != ec {
+								if n >= 4 && (cl != ec || vi != 1) {
 									continue
 								}
 							}
@@ -633,17 +635,23 @@ func Main() {
 	r.Assume("a signature is valid when secp256k1 public-key recovery over Keccak-256 of the canonical vote encoding yields the validator's address (any recovery id / s value that btcec accepts); the CommitSig address field is not signed and is not required to match")
 	r.Assume("after a validator has equivocated, the return value of AddVote for its further votes is not asserted (upstream replaces the primary vote once a block has the majority); all tallies still are")
 	w16 := core.Opts{Workers: 16}
-	r.Cases("corpus", len(corpusVectors)*len(scripts)*2, w16, corpusCase)
-	r.Cases("corpus-commit", len(corpusVectors), w16, corpusCommitCase)
-	r.Cases("seq", r.N(3000, 400000), w16, seqCase)
-	r.Cases("hvs", r.N(250, 20000), w16, hvsCase)
-	r.Cases("commit", r.N(150, 8000), w16, commitCase)
+	only := os.Getenv("C02_ONLY_GROUP") // development aid: run a single group
+	cases := func(group string, n int, fn func(c *core.Case)) {
+		if only == "" || only == group {
+			r.Cases(group, n, w16, fn)
+		}
+	}
+	cases("corpus", len(corpusVectors)*len(scripts)*2, corpusCase)
+	cases("corpus-commit", len(corpusVectors), corpusCommitCase)
+	cases("seq", r.N(3000, 400000), seqCase)
+	cases("hvs", r.N(250, 20000), hvsCase)
+	cases("commit", r.N(150, 8000), commitCase)
 	level := 0
 	if !r.Quick() {
 		level = 1
 	}
 	list := exList(level)
-	r.Cases("exhaustive", len(list), w16, exhaustiveCase(list))
+	cases("exhaustive", len(list), exhaustiveCase(list))
 	r.Extra("exhaustive_part", fmt.Sprintf("%d event lists (first vote of each of n<=%d validators among {A, A with other parts total, nil} x optional equivocation x optional peer claim, 3 power vectors per n), every order of each list", len(list), 3+level))
 	r.Floor("quorum_crossings", 500)
 	r.Floor("conflicting_votes", 500)
